@@ -133,6 +133,85 @@ func init() {
 			}
 			return Str{}
 		},
+		vpkg + "Setenv": func(m *Machine, _ *frame, _ *ssa.Function, a []Value) Value {
+			env, _ := m.natives["env"].(map[string]Str)
+			if env == nil {
+				env = map[string]Str{}
+				m.natives["env"] = env
+			}
+			env[m.concStr(a[0], "Setenv key")] = a[1].(Str)
+			return nil
+		},
+		"os.LookupEnv": func(m *Machine, _ *frame, _ *ssa.Function, a []Value) Value {
+			env, _ := m.natives["env"].(map[string]Str)
+			v, ok := env[m.concStr(a[0], "LookupEnv key")]
+			return Tuple{v, m.C.Bool(ok)}
+		},
+		"os.Getenv": func(m *Machine, _ *frame, _ *ssa.Function, a []Value) Value {
+			env, _ := m.natives["env"].(map[string]Str)
+			return env[m.concStr(a[0], "Getenv key")]
+		},
+		"os.ReadDir": func(m *Machine, caller *frame, fn *ssa.Function, a []Value) Value {
+			zp := m.P.Prog.ImportedPackage("github.com/cube2222/octosql/zzverif")
+			if zp == nil || zp.Var("ReadDirFn") == nil || zp.Type("FakeDirEntry") == nil {
+				m.abort("unsupported: os.ReadDir without the zzverif bridge")
+			}
+			f := *m.global(zp.Var("ReadDirFn"))
+			if isNilFunc(f) || f == nil {
+				m.abort("unsupported: os.ReadDir with zzverif.ReadDirFn unset")
+			}
+			res := m.call(caller, f, []Value{a[0]}).(Tuple)
+			names, dirs, exists := res[0].(Slice), tT(res[1]), tT(res[2])
+			if !m.Decide(exists) {
+				e := m.mkError("open: no such file or directory")
+				m.natives["os.notexist"] = e.(Iface).V
+				return Tuple{Slice{}, e}
+			}
+			et := zp.Type("FakeDirEntry").Type()
+			out := make([]Value, len(names.A))
+			for i, n := range names.A {
+				out[i] = Iface{T: et, V: Struct{n, dirs}}
+			}
+			return Tuple{Slice{A: out}, Iface{}}
+		},
+		"os.IsNotExist": func(m *Machine, _ *frame, _ *ssa.Function, a []Value) Value {
+			iv, _ := a[0].(Iface)
+			mark, ok := m.natives["os.notexist"]
+			return m.C.Bool(ok && iv.T != nil && iv.V == mark)
+		},
+		vpkg + "SetStdin": func(m *Machine, _ *frame, _ *ssa.Function, a []Value) Value {
+			m.natives["stdin"] = sliceBytes(a[0].(Slice))
+			return nil
+		},
+		// (*os.File).Read: only standard input exists under the engine; it serves the bytes given to
+		// zzverif.SetStdin (nothing = immediate EOF). With harness parameter STDIN_CHUNKS=1 every
+		// read returns an arbitrary non-empty prefix of what fits (forked), otherwise all that fits.
+		"(*os.File).Read": func(m *Machine, _ *frame, _ *ssa.Function, a []Value) Value {
+			buf, _ := m.natives["stdin"].([]*term.T)
+			dst := a[1].(Slice)
+			if len(buf) == 0 {
+				eof := Value(Iface{})
+				if iop := m.P.Prog.ImportedPackage("io"); iop != nil && iop.Var("EOF") != nil {
+					eof = *m.global(iop.Var("EOF"))
+				}
+				return Tuple{m.mkInt(0), eof}
+			}
+			n := len(buf)
+			if len(dst.A) < n {
+				n = len(dst.A)
+			}
+			if n == 0 {
+				return Tuple{m.mkInt(0), Iface{}}
+			}
+			if m.Params["STDIN_CHUNKS"] == 1 && n > 1 {
+				n = 1 + m.Choose("stdin.chunk", n)
+			}
+			for i := 0; i < n; i++ {
+				dst.A[i] = buf[i]
+			}
+			m.natives["stdin"] = buf[n:]
+			return Tuple{m.mkInt(int64(n)), Iface{}}
+		},
 		vpkg + "Symbolic": func(m *Machine, _ *frame, _ *ssa.Function, a []Value) Value { return m.C.True },
 		vpkg + "F64Lt": func(m *Machine, _ *frame, _ *ssa.Function, a []Value) Value { return m.C.FLt(tT(a[0]), tT(a[1])) },
 		vpkg + "F64Eq": func(m *Machine, _ *frame, _ *ssa.Function, a []Value) Value { return m.C.FEq(tT(a[0]), tT(a[1])) },
@@ -264,6 +343,38 @@ func init() {
 			m.natives["regexp.lastSubject"] = subj
 			return m.ND("regexp.match", 0)
 		},
+		"(*regexp.Regexp).FindStringSubmatch": func(m *Machine, _ *frame, fn *ssa.Function, a []Value) Value {
+			re := m.regexpOf(a[0])
+			subj := normStr(m.strBytes(a[1].(Str)))
+			if subj.B != nil || re.re == nil {
+				m.abort("unsupported: regexp FindStringSubmatch with symbolic pattern or subject")
+			}
+			return strSlice(re.re.FindStringSubmatch(subj.S))
+		},
+		"(*regexp.Regexp).FindAllString": func(m *Machine, _ *frame, fn *ssa.Function, a []Value) Value {
+			re := m.regexpOf(a[0])
+			subj := normStr(m.strBytes(a[1].(Str)))
+			if subj.B != nil || re.re == nil {
+				m.abort("unsupported: regexp FindAllString with symbolic pattern or subject")
+			}
+			return strSlice(re.re.FindAllString(subj.S, int(tT(a[2]).Int())))
+		},
+		"(*regexp.Regexp).FindString": func(m *Machine, _ *frame, fn *ssa.Function, a []Value) Value {
+			re := m.regexpOf(a[0])
+			subj := normStr(m.strBytes(a[1].(Str)))
+			if subj.B != nil || re.re == nil {
+				m.abort("unsupported: regexp FindString with symbolic pattern or subject")
+			}
+			return Str{S: re.re.FindString(subj.S)}
+		},
+		"(*regexp.Regexp).ReplaceAllString": func(m *Machine, _ *frame, fn *ssa.Function, a []Value) Value {
+			re := m.regexpOf(a[0])
+			subj, repl := normStr(m.strBytes(a[1].(Str))), normStr(m.strBytes(a[2].(Str)))
+			if subj.B != nil || repl.B != nil || re.re == nil {
+				m.abort("unsupported: regexp ReplaceAllString with symbolic operands")
+			}
+			return Str{S: re.re.ReplaceAllString(subj.S, repl.S)}
+		},
 		"(*regexp.Regexp).String": func(m *Machine, _ *frame, fn *ssa.Function, a []Value) Value { return m.regexpOf(a[0]).src },
 		"regexp.QuoteMeta": func(m *Machine, _ *frame, fn *ssa.Function, a []Value) Value {
 			in := a[0].(Str)
@@ -283,11 +394,144 @@ func init() {
 			}
 			return normStr(out)
 		},
-		"runtime.GOMAXPROCS": func(m *Machine, _ *frame, _ *ssa.Function, a []Value) Value { return m.mkInt(1) },
+		"runtime.GOMAXPROCS": func(m *Machine, _ *frame, _ *ssa.Function, a []Value) Value {
+			if v, ok := m.Params["GOMAXPROCS"]; ok {
+				return m.mkInt(int64(v))
+			}
+			return m.mkInt(1)
+		},
 		"runtime.NumCPU":     func(m *Machine, _ *frame, _ *ssa.Function, a []Value) Value { return m.mkInt(1) },
 		"runtime.Gosched":    func(m *Machine, _ *frame, _ *ssa.Function, a []Value) Value { m.yield(); return nil },
 		"runtime.KeepAlive":  nop,
 		"time.Sleep":         nop,
+
+
+		// ---- sync/atomic primitives: plain read-modify-write under the cooperative scheduler ----
+		"sync/atomic.AddInt32": func(m *Machine, _ *frame, _ *ssa.Function, a []Value) Value {
+			p := a[0].(*Value)
+			nv := m.C.Add((*p).(*term.T), tT(a[1]))
+			*p = nv
+			return nv
+		},
+		"sync/atomic.LoadInt32": func(m *Machine, _ *frame, _ *ssa.Function, a []Value) Value { return *a[0].(*Value) },
+		"sync/atomic.StoreInt32": func(m *Machine, _ *frame, _ *ssa.Function, a []Value) Value { *a[0].(*Value) = a[1]; return nil },
+		"sync/atomic.SwapInt32": func(m *Machine, _ *frame, _ *ssa.Function, a []Value) Value {
+			p := a[0].(*Value)
+			old := *p
+			*p = a[1]
+			return old
+		},
+		"sync/atomic.CompareAndSwapInt32": func(m *Machine, _ *frame, _ *ssa.Function, a []Value) Value {
+			p := a[0].(*Value)
+			if m.Decide(m.C.Eq((*p).(*term.T), tT(a[1]))) {
+				*p = a[2]
+				return m.C.True
+			}
+			return m.C.False
+		},
+		"sync/atomic.AddInt64": func(m *Machine, _ *frame, _ *ssa.Function, a []Value) Value {
+			p := a[0].(*Value)
+			nv := m.C.Add((*p).(*term.T), tT(a[1]))
+			*p = nv
+			return nv
+		},
+		"sync/atomic.LoadInt64": func(m *Machine, _ *frame, _ *ssa.Function, a []Value) Value { return *a[0].(*Value) },
+		"sync/atomic.StoreInt64": func(m *Machine, _ *frame, _ *ssa.Function, a []Value) Value { *a[0].(*Value) = a[1]; return nil },
+		"sync/atomic.SwapInt64": func(m *Machine, _ *frame, _ *ssa.Function, a []Value) Value {
+			p := a[0].(*Value)
+			old := *p
+			*p = a[1]
+			return old
+		},
+		"sync/atomic.CompareAndSwapInt64": func(m *Machine, _ *frame, _ *ssa.Function, a []Value) Value {
+			p := a[0].(*Value)
+			if m.Decide(m.C.Eq((*p).(*term.T), tT(a[1]))) {
+				*p = a[2]
+				return m.C.True
+			}
+			return m.C.False
+		},
+		"sync/atomic.AddUint32": func(m *Machine, _ *frame, _ *ssa.Function, a []Value) Value {
+			p := a[0].(*Value)
+			nv := m.C.Add((*p).(*term.T), tT(a[1]))
+			*p = nv
+			return nv
+		},
+		"sync/atomic.LoadUint32": func(m *Machine, _ *frame, _ *ssa.Function, a []Value) Value { return *a[0].(*Value) },
+		"sync/atomic.StoreUint32": func(m *Machine, _ *frame, _ *ssa.Function, a []Value) Value { *a[0].(*Value) = a[1]; return nil },
+		"sync/atomic.SwapUint32": func(m *Machine, _ *frame, _ *ssa.Function, a []Value) Value {
+			p := a[0].(*Value)
+			old := *p
+			*p = a[1]
+			return old
+		},
+		"sync/atomic.CompareAndSwapUint32": func(m *Machine, _ *frame, _ *ssa.Function, a []Value) Value {
+			p := a[0].(*Value)
+			if m.Decide(m.C.Eq((*p).(*term.T), tT(a[1]))) {
+				*p = a[2]
+				return m.C.True
+			}
+			return m.C.False
+		},
+		"sync/atomic.AddUint64": func(m *Machine, _ *frame, _ *ssa.Function, a []Value) Value {
+			p := a[0].(*Value)
+			nv := m.C.Add((*p).(*term.T), tT(a[1]))
+			*p = nv
+			return nv
+		},
+		"sync/atomic.LoadUint64": func(m *Machine, _ *frame, _ *ssa.Function, a []Value) Value { return *a[0].(*Value) },
+		"sync/atomic.StoreUint64": func(m *Machine, _ *frame, _ *ssa.Function, a []Value) Value { *a[0].(*Value) = a[1]; return nil },
+		"sync/atomic.SwapUint64": func(m *Machine, _ *frame, _ *ssa.Function, a []Value) Value {
+			p := a[0].(*Value)
+			old := *p
+			*p = a[1]
+			return old
+		},
+		"sync/atomic.CompareAndSwapUint64": func(m *Machine, _ *frame, _ *ssa.Function, a []Value) Value {
+			p := a[0].(*Value)
+			if m.Decide(m.C.Eq((*p).(*term.T), tT(a[1]))) {
+				*p = a[2]
+				return m.C.True
+			}
+			return m.C.False
+		},
+		"sync/atomic.AddUintptr": func(m *Machine, _ *frame, _ *ssa.Function, a []Value) Value {
+			p := a[0].(*Value)
+			nv := m.C.Add((*p).(*term.T), tT(a[1]))
+			*p = nv
+			return nv
+		},
+		"sync/atomic.LoadUintptr": func(m *Machine, _ *frame, _ *ssa.Function, a []Value) Value { return *a[0].(*Value) },
+		"sync/atomic.StoreUintptr": func(m *Machine, _ *frame, _ *ssa.Function, a []Value) Value { *a[0].(*Value) = a[1]; return nil },
+		"sync/atomic.SwapUintptr": func(m *Machine, _ *frame, _ *ssa.Function, a []Value) Value {
+			p := a[0].(*Value)
+			old := *p
+			*p = a[1]
+			return old
+		},
+		"sync/atomic.CompareAndSwapUintptr": func(m *Machine, _ *frame, _ *ssa.Function, a []Value) Value {
+			p := a[0].(*Value)
+			if m.Decide(m.C.Eq((*p).(*term.T), tT(a[1]))) {
+				*p = a[2]
+				return m.C.True
+			}
+			return m.C.False
+		},
+		"sync/atomic.LoadPointer":  func(m *Machine, _ *frame, _ *ssa.Function, a []Value) Value { return *a[0].(*Value) },
+		"sync/atomic.StorePointer": func(m *Machine, _ *frame, _ *ssa.Function, a []Value) Value { *a[0].(*Value) = a[1]; return nil },
+
+		// fastjson's unsafe string<->[]byte casts: copies
+		"github.com/valyala/fastjson.b2s": func(m *Machine, _ *frame, _ *ssa.Function, a []Value) Value {
+			return normStr(sliceBytes(a[0].(Slice)))
+		},
+		"github.com/valyala/fastjson.s2b": func(m *Machine, _ *frame, _ *ssa.Function, a []Value) Value {
+			bs := m.strBytes(a[0].(Str))
+			out := make([]Value, len(bs))
+			for i, b := range bs {
+				out[i] = b
+			}
+			return Slice{A: out}
+		},
 
 		// ---- strings.Builder ----
 		"(*strings.Builder).copyCheck": nop,
@@ -942,4 +1186,15 @@ func (m *Machine) writeTo(caller *frame, w Value, s Str) Value {
 		arr[i] = b
 	}
 	return m.call(caller, f, []Value{iv.V, Slice{A: arr}})
+}
+
+func strSlice(ss []string) Value {
+	if ss == nil {
+		return Slice{}
+	}
+	out := make([]Value, len(ss))
+	for i, x := range ss {
+		out[i] = Str{S: x}
+	}
+	return Slice{A: out}
 }
